@@ -50,6 +50,20 @@ def gen_cases(tier, seed):
                 for kind in pdugen.KINDS:
                     i += 1
                     cases.append({"t": "fuzz", "side": side, "target": target, "mode": mode, "seed": seed * 1_000_003 + i, "first_kind": kind})
+    # bounded exhaustive enumeration: every sequence of the small alphabets up to the depth, on fresh handlers
+    import itertools
+
+    depth_d, depth_s = (4, 4) if tier == "quick" else (6, 5)
+    for mode in ("ack", "unack"):
+        for L in range(1, depth_d + 1):
+            for scr in itertools.product(ENUM_D, repeat=L):
+                if L < depth_d and mode == "unack":
+                    continue  # shorter sequences are prefixes of the longer ones; kept once (ack) for the short witnesses
+                i += 1
+                cases.append({"t": "fuzz", "side": "D", "target": "IDLE_FRESH", "mode": mode, "seed": i % 97, "script": list(scr)})
+        for scr in itertools.product(ENUM_S[1:], repeat=depth_s - 1):
+            i += 1
+            cases.append({"t": "fuzz", "side": "S", "target": "IDLE_FRESH", "mode": mode, "seed": i % 97, "script": ["PUT"] + list(scr)})
     nloop = 3000 if tier == "quick" else 60000
     for j in range(nloop):
         cases.append({"t": "loop", "seed": seed * 1_000_003 + 500_000 + j})
@@ -129,6 +143,46 @@ def rand_pdu(rng, w, ep, size, force_kind=None):
                        "f": {k: (v.hex() if isinstance(v, (bytes, bytearray)) else v) for k, v in f.items() if k not in ("src_name", "dst_name")}}
 
 
+# alphabet of the bounded exhaustive enumeration: well-formed PDUs of the current transaction (right ids, the transfer's own mode) and API actions
+ENUM_D = ["MD", "FD0", "FD4", "EOF", "EOFC", "ACKFIN", "TICK", "IDLE", "CANCEL"]
+ENUM_S = ["PUT", "IDLE", "ACKEOF", "FIN", "NAK04", "NAKMD", "NAKBAD", "TICK", "CANCEL", "KA"]
+
+
+def scripted_action(sym, w, ep, size):
+    cur = ep.h.transaction_id
+    seq_now = cur.seq_num.value if cur is not None else w.cfg["seq_start"]
+    conf = pdugen.conf(1, 2, seq_now, idw=2, seqw=2, mode=w.cfg["mode"])
+    f, kind = None, None
+    if sym in ("TICK", "IDLE", "PUT"):
+        return {"TICK": "tick", "IDLE": "idle", "PUT": "put_same"}[sym], None, None, sym
+    if sym == "CANCEL":
+        return "cancel_right", None, None, sym
+    if sym == "MD":
+        kind, f = "MD", {"size": size, "cks": w.cfg["cks"], "closure": w.cfg["closure"], "src_name": w.src_path.as_posix(), "dst_name": w.dst_req_path.as_posix()}
+    elif sym in ("FD0", "FD4"):
+        off = int(sym[2:])
+        kind, f = "FD", {"offset": off, "data": w.data[off : off + 4]}
+    elif sym == "EOF":
+        kind, f = "EOF", {"size": size, "cksum": models.checksum(w.cfg["cks"], w.data)}
+    elif sym == "EOFC":
+        kind, f = "EOF", {"size": 4, "cksum": models.checksum(w.cfg["cks"], w.data[:4]), "cond": "CANCEL_REQUEST_RECEIVED", "fault_loc": b"\x00\x01"}
+    elif sym == "ACKFIN":
+        kind, f = "ACK_FIN", {}
+    elif sym == "ACKEOF":
+        kind, f = "ACK_EOF", {}
+    elif sym == "FIN":
+        kind, f = "FIN", {}
+    elif sym == "NAK04":
+        kind, f = "NAK", {"scope": (0, size), "reqs": [(0, 4)]}
+    elif sym == "NAKMD":
+        kind, f = "NAK", {"scope": (0, size), "reqs": [(0, 0)]}
+    elif sym == "NAKBAD":
+        kind, f = "NAK", {"scope": (0, size), "reqs": [(4, size + 9)]}
+    elif sym == "KA":
+        kind, f = "KA", {"progress": 4}
+    return "pdu", kind, pdugen.raw(kind, conf, f), sym
+
+
 def frames_of(w):
     ex = w.log.of("exc")
     return ex[-1]["frames"] if ex else []
@@ -136,8 +190,8 @@ def frames_of(w):
 
 def run_fuzz(case):
     rng = random.Random(case["seed"])
-    size = rng.choice([8, 9, 12])
-    cfg = {"mode": case["mode"], "closure": rng.random() < 0.5, "size": size, "seg": 4, "imm_nak": rng.random() < 0.5, "fs": rng.choice(["mem", "mem", "native"]),
+    size = rng.choice([8, 9, 12]) if case.get("script") is None else 8
+    cfg = {"mode": case["mode"], "closure": rng.random() < 0.5, "size": size, "seg": 4, "imm_nak": rng.random() < 0.5, "fs": rng.choice(["mem", "mem", "native"]) if case.get("script") is None else "mem",
            "ack_limit": 2, "nak_limit": 2, "check_limit": 2, "cks": rng.choice(["crc32", "crc32", "modular", "null"]), "disp": rng.random() < 0.5}
     viol, obs, keys = [], {}, {"fuzzed": []}
     actions_log = []
@@ -151,13 +205,16 @@ def run_fuzz(case):
         if not ok:
             obs["prep_did_not_reach_step"] = 1
         ep.outbox.clear()
-        nact = rng.randrange(12, 40)
+        script = case.get("script")
+        nact = len(script) if script is not None else rng.randrange(12, 40)
         reached_busy = 0
         for ai in range(nact):
             r = rng.random()
             act = None
             raw = kind = desc = None
-            if ai == 0 and case.get("first_kind"):
+            if script is not None:
+                act, kind, raw, desc = scripted_action(script[ai], w, ep, size)
+            elif ai == 0 and case.get("first_kind"):
                 kind, raw, desc = rand_pdu(rng, w, ep, size, force_kind=case["first_kind"])
                 if raw is None:
                     kind, raw, desc = rand_pdu(random.Random(case["seed"] + 1), w, ep, size, force_kind=case["first_kind"])
@@ -210,6 +267,9 @@ def run_fuzz(case):
                     if act == "cancel_wrong" or tid is None:
                         tid = TransactionId(ByteFieldGenerator.from_int(2, 1), ByteFieldGenerator.from_int(2, 4242))
                     ep.cancel(tid)
+                elif act == "put_same":
+                    actions_log.append("put")
+                    ep.put(w.put_request())
                 elif act == "put":
                     pk = rng.choice(["same", "empty", "md_only", "missing"])
                     actions_log.append("put:" + pk)
@@ -269,6 +329,8 @@ def run_fuzz(case):
             else:
                 obs["calls_returned"] = obs.get("calls_returned", 0) + 1
         obs["fuzz_cases"] = 1
+        if script is not None:
+            obs["enumerated_sequences"] = 1
         obs["pdus_to_busy_handler"] = reached_busy
         for v in viol:
             v["case"] = case
@@ -340,4 +402,4 @@ def finalize(ctx):
     return [], inc
 
 
-REQUIRED = {"fuzz_cases": 200, "pdus_to_busy_handler": 2000, "admission_rejections_checked": 500, "loop_cases": 200, "calls_returned": 2000}
+REQUIRED = {"enumerated_sequences": 5000, "fuzz_cases": 200, "pdus_to_busy_handler": 2000, "admission_rejections_checked": 500, "loop_cases": 200, "calls_returned": 2000}
